@@ -569,11 +569,19 @@ fn classes(id: &str, thorough: bool, lite: bool) -> Vec<Class> {
                 vec![vec![Op::W], vec![Op::F], vec![Op::W], vec![Op::W]],
             ];
             if thorough {
-                t.push(vec![vec![Op::WH], vec![Op::WH], vec![Op::W], vec![Op::W], vec![Op::R], vec![Op::R]]);
                 t.push(vec![vec![Op::WH], vec![Op::WH], vec![Op::W, Op::R], vec![Op::R, Op::W]]);
             }
             t
         };
+        if thorough && id == "C02" {
+            v.push(Class {
+                desc: "two lock instances, 6 threads (3 per instance)".into(),
+                progs: vec![vec![vec![Op::WH], vec![Op::WH], vec![Op::W], vec![Op::W], vec![Op::R], vec![Op::R]], vec![vec![Op::WH], vec![Op::F], vec![Op::W], vec![Op::W], vec![Op::R], vec![Op::R]]],
+                budget: b(2, 1, 0),
+                preset: 0,
+                nlocks: 2,
+            });
+        }
         v.push(Class { desc: "two lock instances, 4 threads (2 per instance), holders release once everybody is parked; with the second instance held for ever".into(), progs: two, budget: if thorough { b(4, 1, 0) } else { b(3, 1, 0) }, preset: 0, nlocks: 2 });
     }
     if lite {
